@@ -20,7 +20,7 @@ func init() {
 			"(R08.3) coverage floors for the SSA value kinds handled by recordArgReflected, relatedParam, checkFunction and checkMethodSignature (a removed case is a violation, an added one is not); " +
 			"(R08.4) the fix-point is free of pruning state: which calls checkFunction examines depends only on the accumulated result sets, never on 'already checked' maps, and the name pairs are emitted in sorted order; " +
 			"(R08.5) the injection chain agrees: the text abiNamePatch replaces occurs exactly once in the pinned toolchain's internal/abi/type.go, the two linknamed functions have the same names on both sides, and the name table is looked up under the right spelling of its variable. " +
-			"(R08.6) the method-signature heuristic marks unnamed struct types only; " +
+			"(R08.6) the method-signature heuristic marks unnamed struct types only; (R08.7) the reflected-type walker stops early only on visited, universe and already-recorded types; " +
 			"(R07.2, shared with C07) the facts of a dependency whose cache entry is missing are recomputed whenever the dependency can reach reflect at all (transitively), merged and stored. " +
 			"Does not decide the soundness of the taint heuristic over all data flows, nor the injected replacer's algorithm.",
 		perConfig: checkC08,
@@ -353,6 +353,89 @@ func checkC08(c *Ctx) {
 			"declared as an empty []string in the injected code, filled by text replacement", "reflectMainPostPatch fills "+varName+", which the injected code does not declare as `var "+varName+" = []string{}`")
 	}
 	ruleMethodSignatureUnnamedOnly(c)
+	ruleWalkerCutsOnlyOnCycles(c)
+}
+
+// ruleWalkerCutsOnlyOnCycles is R08.7. The walker that records a reflected type descends
+// from a named type into its underlying type. That descent may be cut only where it cannot
+// lose anything: the type was visited already (cycle), it is a universe type without a
+// package, or it is recorded as reflected already. Any other early return — for instance
+// "nothing new was recorded", which is also the case for a type of a package that is not
+// obfuscated — stops the walk above types and fields of obfuscated packages that are
+// reachable only through it (wire.Envelope{Items []model.Item} under a partial GOGARBLE).
+func ruleWalkerCutsOnlyOnCycles(c *Ctx) {
+	w := c.W
+	c.Rule("R08.7", "the reflected-type walker stops early only on visited types, universe types and types already recorded", 1)
+	walker := w.Fn("(*reflectInspector).recursivelyRecordUsedForReflectImpl")
+	if walker == nil {
+		c.Undecided("R08.7", "walker early returns", "", "walker not found")
+		return
+	}
+	var body *ssa.BasicBlock
+	for _, ts := range typeSwitches(walker) {
+		for _, cse := range ts.Cases {
+			if strings.HasSuffix(cse.Type.String(), "types.Named") {
+				body = cse.Body
+			}
+		}
+	}
+	if body == nil {
+		c.Undecided("R08.7", "walker early returns", w.Pos(walker.Pos()), "no case for *types.Named")
+		return
+	}
+	bad, n := "", 0
+	for _, r := range returnsOf(walker) {
+		if !body.Dominates(r.Block()) {
+			continue
+		}
+		// a return that follows the recursive call is the normal end of the case
+		after := false
+		for _, cs := range w.CallsToFn(walker) {
+			if cs.Fn == walker && body.Dominates(cs.Instr.Block()) && dominatesInstr(cs.Instr, r) {
+				after = true
+			}
+		}
+		if after {
+			continue
+		}
+		n++
+		ok := false
+		for _, f := range edgeFacts(r.Block()) {
+			if !body.Dominates(ifBlockOf(f, walker)) {
+				continue
+			}
+			nf := normFact(f)
+			if v, nonNil, isNil := nilTest(nf.V); isNil && nf.Outcome != nonNil {
+				if call, isCall := v.(*ssa.Call); isCall && calleeName(call) == "(go/types.Object).Pkg" || strings.HasSuffix(calleeNameOf(v), ").Pkg") {
+					ok = true // universe type
+				}
+			}
+			if call, isCall := nf.V.(*ssa.Call); isCall && nf.Outcome && strings.HasSuffix(calleeName(call), ".usedForReflect") {
+				ok = true // recorded already: prevents endless recursion
+			}
+		}
+		if !ok {
+			bad = "the *types.Named case returns at " + w.Pos(r.Pos()) + " before descending into the underlying type, for a reason other than 'universe type' or 'already recorded': types and fields of obfuscated packages that are reachable only through such a type are never recorded"
+		}
+	}
+	c.Check(bad == "", "R08.7", "walker early returns in the *types.Named case", w.Pos(body.Instrs[0].Pos()), fmt.Sprintf("%d early returns, all cycle/universe cuts", n), bad)
+}
+
+// ifBlockOf: the block whose If produced the fact (the dominating block that tests f.V).
+func ifBlockOf(f condFact, fn *ssa.Function) *ssa.BasicBlock {
+	for _, b := range fn.Blocks {
+		if iff := ifOf(b); iff != nil && iff.Cond == f.V {
+			return b
+		}
+	}
+	return fn.Blocks[0]
+}
+
+func calleeNameOf(v ssa.Value) string {
+	if call, ok := v.(*ssa.Call); ok {
+		return calleeName(call)
+	}
+	return ""
 }
 
 // ruleMethodSignatureUnnamedOnly is R08.6. The heuristic "an exported method with an
